@@ -746,8 +746,110 @@ def rule_divisors(ck):
         ck.ob("panic.zero_divisors", f"{key}/zero-excluded-before-the-operation", ok, f"divisor {expr_str(d0, 5)[:80]}; tests seen: {seen}", f.loc(bi), what="a divisor taken from input (client text, debuggee data) can be zero here: the debugger panics")
 
 
+def rule_index_bounds(ck):
+    """`v[i]` with a client-derived index panics when i >= len whatever the build profile"""
+    prog = ck.prog
+    ck.rule("panic.index_bounds", "every direct slice / array indexing in the layers that handle client text (src/dap, src/ui/command, src/ui/console: the sites where rustc emits an index-out-of-bounds assertion) uses an index with an upper bound: a constant below a constant length, a value that went through min / clamp / a remainder, or a value for which a dominating comparison (index < X, index <= X on the taken edge) holds")
+    sites = []
+    for p_, f in sorted(prog.fns.items()):
+        if not (f.file.startswith("src/dap") or f.file.startswith("src/ui/command") or f.file.startswith("src/ui/console")):
+            continue
+        for bi, b in enumerate(f.blocks):
+            t = b["term"]
+            if t["t"] == "assert" and t.get("kind") == "bounds" and not b["cleanup"]:
+                sites.append((p_, f, bi, t))
+    # Vec / slice indexing by a scalar goes through Index::index (the panic is inside core), same obligation
+    for p_, f in sorted(prog.fns.items()):
+        if not (f.file.startswith("src/dap") or f.file.startswith("src/ui/command") or f.file.startswith("src/ui/console")):
+            continue
+        for c in f.calls():
+            if re.search(r"ops::Index(Mut)?<.*>>::index(_mut)?$", c.name) and len(c.args) == 2 and c.args[1].get("p"):
+                ity = f.local_ty(c.args[1]["p"][0])
+                if re.fullmatch(r"(usize|u64|u32|u16|u8)", ity):
+                    sites.append((p_, f, c.bb, {"ops": [{"k": "const", "val": None}, c.args[1]], "call": True}))
+    ck.ob("panic.index_bounds", "sites-scanned", True, f"{len(sites)} direct indexing sites in the client-facing layers", "")
+
+    def roots(e, out, depth=0):
+        """values the index is computed from (through +/- constants and casts)"""
+        if depth > 10 or not isinstance(e, tuple):
+            return out
+        if e[0] == "cast":
+            return roots(e[2], out, depth + 1)
+        if e[0] in ("ref", "try"):
+            return roots(e[1], out, depth + 1)
+        if e[0] == "field" and e[2] and all(str(x) in (".0", "*") for x in e[2]):
+            return roots(e[1], out, depth + 1)
+        if e[0] == "bin" and e[1] in ("Add", "Sub", "AddWithOverflow", "SubWithOverflow", "AddUnchecked", "SubUnchecked"):
+            roots(e[2], out, depth + 1)
+            roots(e[3], out, depth + 1)
+            return out
+        if e[0] == "multi":
+            for x in e[1]:
+                roots(x, out, depth + 1)
+            return out
+        out.append(e)
+        return out
+
+    nth = {}
+    for p_, f, bi, t in sites:
+        ck.saw(f)
+        owner = short(owner_fn(p_))
+        n = nth.get(owner, 0)
+        nth[owner] = n + 1
+        key = f"{owner}#{n}"
+        ln = expr_of(f, t["ops"][0], depth=8) if t.get("ops") and not t.get("call") else ("unknown",)
+        ix = expr_of(f, t["ops"][1], depth=12) if t.get("ops") and len(t["ops"]) > 1 else ("unknown",)
+        if ix[0] == "const" and ln[0] == "const":
+            ck.ob("panic.index_bounds", f"{key}/constant-index-inside-constant-length", ix[1] < ln[1], f"[{ix[1]}] of {ln[1]}", f.loc(bi))
+            continue
+        rs = [r for r in roots(ix, []) if r[0] != "const"]
+        # a loop-carried index (i = i - 1) shows up as a cycle: it is as bounded as the value the loop starts from
+        if any(r != ("unknown",) for r in rs):
+            rs = [r for r in rs if r != ("unknown",)]
+        bounded = bool(rs) or ix[0] == "const"
+        why = []
+        for r in rs:
+            ok = False
+            if r[0] == "call" and re.search(r"::(min|clamp|rem_euclid|checked_\w+|saturating_sub)$", r[1]):
+                ok = True
+            if r[0] == "bin" and r[1] in ("Rem", "BitAnd"):
+                ok = True
+            if not ok:
+                for b2, blk in enumerate(f.blocks):
+                    t2 = blk["term"]
+                    if t2["t"] != "switch" or not f.dominates(b2, bi):
+                        continue
+                    e = expr_of(f, t2["discr"], depth=12)
+                    if e[0] != "bin" or e[1] not in ("Lt", "Le", "Gt", "Ge"):
+                        continue
+                    la, rb = roots(e[2], []), roots(e[3], [])
+                    upper_true = (e[1] in ("Lt", "Le") and r in la) or (e[1] in ("Gt", "Ge") and r in rb)
+                    upper_false = (e[1] in ("Gt", "Ge") and r in la) or (e[1] in ("Lt", "Le") and r in rb)
+                    if not (upper_true or upper_false):
+                        continue
+                    good = 1 if upper_true else 0
+                    bad_t = [tg for v, tg in t2["arms"] if int(v) != good]
+                    if good not in {int(v) for v, tg in t2["arms"]}:
+                        bad_t = [tg for v, tg in t2["arms"]]
+                    else:
+                        if {0, 1} - {int(v) for v, tg in t2["arms"]}:
+                            bad_t.append(t2["otherwise"])
+                    if all(bi not in f.reach_from([tg], avoid={b2}) for tg in bad_t):
+                        ok = True
+                        break
+            if not ok:
+                bounded = False
+                why.append(expr_str(r, 5)[:60])
+        ck.ob("panic.index_bounds", f"{key}/index-has-an-upper-bound", bounded, f"index {expr_str(ix, 6)[:80]}" + (f"; unbounded parts: {why}" if why else ""), f.loc(bi), what="an index computed from client input is not bounded above before it is used: a request with a large value makes the adapter panic")
+
+
 def run(ck):
     rule_divisors(ck)
+    rule_index_bounds(ck)
+    # the ring indexes of a VecDeque are applied to a buffer fetched for the same capacity (shared with C06): otherwise
+    # element ranges lie outside the fetched bytes
+    from rules import C06
+    C06.rule_vecdeque(ck)
     rule_unsafe(ck)
     rule_inttok(ck)
     rule_taint(ck)
